@@ -271,6 +271,8 @@ fn one_case(d: &mut Draw, thorough: bool) -> Outcome {
         },
         multi_sources: true,
         deps: true,
+        alias_per_mille: 300,
+        twin_warning_per_mille: 0,
         dep_weights: [5, 3, 3],
         std_per_mille: 80,
         collide_per_mille: 40,
